@@ -218,6 +218,7 @@ class Check:
 
     def run(self):
         self.results = self._map(self.jobs)
+        self.t_solve = time.time() - self.t0
         self.mutant_results = []
         if self.tier == "thorough" and self.mutant_jobs:
             rs = self._map([j for _, j in self.mutant_jobs])
@@ -291,6 +292,9 @@ class Check:
         for l in lines:
             print(l)
         tot = self.totals()
+        slow = sorted(((r.stats.get("wall_s", 0), r.name) for r in self.results), reverse=True)[:3]
+        print("  slowest jobs: %s; phases: solve %.1fs, replay %.1fs" %
+              (", ".join("%s %.1fs" % (n, w) for w, n in slow), getattr(self, "t_solve", 0), time.time() - self.t0 - getattr(self, "t_solve", 0)))
         print("%s %s tier=%s jobs=%d paths=%d queries=%d proved=%d failed=%d solver=%.1fs wall=%.1fs -> exit %d"
               % (self.pid, "OK" if exitcode == 0 else ("VIOLATION" if exitcode == 1 else "INCONCLUSIVE"),
                  self.tier, len(self.results), tot["paths"], tot["queries"], tot["proved"], tot["failed"],
@@ -430,18 +434,19 @@ def tree_hash():
 
 
 def repo_build_is_current():
-    """True when /repo's in-place extension modules are newer than every source file."""
+    """True when each of /repo's in-place extension modules is newer than its own .pyx and than every .pxd."""
     import glob
-    sos = glob.glob(os.path.join(REPO, "bioscrape", "*.so"))
-    if len(sos) < 5:
-        return False
-    oldest = min(os.path.getmtime(s) for s in sos)
-    for root in ("bioscrape", "lineage"):
-        for dp, dn, fn in os.walk(os.path.join(REPO, root)):
-            for f in fn:
-                if f.endswith((".pyx", ".pxd")):
-                    if os.path.getmtime(os.path.join(dp, f)) > oldest:
-                        return False
+    srcs = {"random": "bioscrape/random.pyx", "types": "bioscrape/types.pyx", "simulator": "bioscrape/simulator.pyx",
+            "inference": "bioscrape/inference.pyx", "lineage": "lineage/lineage.pyx"}
+    pxds = glob.glob(os.path.join(REPO, "bioscrape", "*.pxd")) + glob.glob(os.path.join(REPO, "lineage", "*.pxd"))
+    newest_pxd = max([os.path.getmtime(p) for p in pxds] or [0])
+    for name, src in srcs.items():
+        sos = glob.glob(os.path.join(REPO, "bioscrape", name + ".*.so"))
+        if len(sos) != 1:
+            return False
+        t = os.path.getmtime(sos[0])
+        if t < os.path.getmtime(os.path.join(REPO, src)) or t < newest_pxd:
+            return False
     return True
 
 
